@@ -4,6 +4,7 @@ mod c02;
 mod c09;
 mod c12;
 mod c15;
+mod c20;
 mod flow;
 mod kit;
 
@@ -86,6 +87,13 @@ fn main() {
             run_dfs(&mut rep, "dns", 0, wall, move |ch| c15::dns_scenario(ch, thorough));
             rep.finish();
         }
+        "C20" => {
+            let mut rep = Report::new("C20", tier, "model_checking", "sim");
+            rep.rule = "part 0: every interleaving at await granularity (choice = which runnable task the mini executor polls next), part 1: interleavings within a preemption bound with 2-3 barriers built up front; 2 source tasks (3 triggers) issuing trigger / trigger_noop with values from {1,2} and a test task running every script of length 3 (quick) / 4 (thorough) over {build Noop =1, build Suspend any, build Suspend =1, build Panic =2, wait on 1st/2nd live barrier, drop oldest handle, drop 1st live barrier}; the event log is replayed against a sequential reference registry".into();
+            run_dfs(&mut rep, "barriers-all-interleavings", 0, wall, move |ch| c20::scenario(ch, thorough, 0));
+            run_dfs(&mut rep, "barriers-registry-preemption-bounded", tier.pick(2, 4), wall, move |ch| c20::scenario(ch, thorough, 1));
+            rep.finish();
+        }
         other => vx_core::machinery_error(&format!("vx-sim does not serve {other}")),
     }
 }
@@ -104,6 +112,10 @@ fn replay(path: &str) {
         "C03" => flow::c03_scenario(&mut ch, thorough),
         "C14" => flow::c14_scenario(&mut ch, thorough),
         "C12" => c12::scenario(&mut ch, thorough),
+        "C20" => {
+            let part = if v["scenario"].as_str().map(|s| s.contains("part=1")).unwrap_or(false) { 1 } else { 0 };
+            c20::scenario(&mut ch, thorough, part)
+        }
         "C15" => {
             if v["scenario"].as_str().map(|s| s.starts_with("c15-ports")).unwrap_or(false) {
                 c15::ports_scenario(&mut ch, thorough)
